@@ -4,13 +4,13 @@ package main
 
 import (
 	"fmt"
-	"strconv"
 	"go/ast"
 	"go/token"
 	"go/types"
 	"os"
 	"path/filepath"
 	"sort"
+	"strconv"
 	"strings"
 	"sync"
 	"time"
